@@ -188,6 +188,37 @@ theorem setVal_shape {X : SetOracle} {ws : List Value} {r : Value} (h : setVal X
         simp only [ofBuckets, List.flatMap_cons, List.length_append, List.length_map] at ih ⊢
         omega
 
+/-- `atPathCb` — the harness rule `(at q0 (ret x))` — meets both hypotheses of
+`transformFuel_replace_below_set` when no two members of the set have the same step
+(the members of a set are pairwise different values) -/
+theorem atPathCb_hyps_below_set {X : SetOracle} (hX : IterPerm X) (v x : Value)
+    (hs : shapedV v = true) (hnd : ((kids X v).map (·.1)).Nodup) (i : Nat) (r : Pos) (q0' : Path)
+    (ci : PathStep × Value) (hci : (kids X v)[i]? = some ci) (hq : pathAt X ci.2 r = some q0')
+    (hns : noSetAt X ci.2 r = true) :
+    (∀ log v', atPathCb (ci.1 :: q0') x log (ci.1 :: q0') v' = .ok x) ∧
+    (∀ r' q, r' ≠ i :: r → pathAt X v r' = some q → ∀ log v', atPathCb (ci.1 :: q0') x log q v' = .ok v') := by
+  refine ⟨fun log v' => by simp [atPathCb], fun r' q hne hq' log v' => ?_⟩
+  have hne' : q ≠ ci.1 :: q0' := by
+    intro h
+    subst h
+    cases r' with
+    | nil => simp [pathAt] at hq'
+    | cons j r'' =>
+      simp only [pathAt] at hq'
+      cases hj : (kids X v)[j]? with
+      | none => simp [hj] at hq'
+      | some c =>
+        simp only [hj, Option.map_eq_some_iff, List.cons.injEq] at hq'
+        obtain ⟨q', hq'', hst, rfl⟩ := hq'
+        have hji : j = i := nodup_map_getElem?_inj (·.1) (kids X v) hnd j i c ci hj hci hst
+        subst hji
+        rw [hci] at hj
+        cases hj
+        have := pathAt_inj_noSet hX r r'' ci.2 q' (kids_shaped hX v hs ci (List.mem_of_getElem? hci))
+          hns hq hq''
+        exact hne (by rw [this])
+  simp [atPathCb, hne']
+
 /-! ### which members and which marks `SetVal` keeps — without any law on the rules -/
 
 theorem mem_values_setBucket_sub {α : Type} (h : Int) (b : List α) (m : α) :
